@@ -33,6 +33,14 @@ impl SeqGroup {
     }
 
     pub fn apply_range(&mut self, start: u64, len: u64) {
+        // keep the older range current: when the current range is used up while the spare one
+        // still holds ids, hand out the spare first and refill the used-up one; otherwise the
+        // new (higher) range would be served before the older spare and ids would go backwards
+        if self.use_a && !self.range_a.has_next() && self.range_b.has_next()
+            || !self.use_a && !self.range_b.has_next() && self.range_a.has_next()
+        {
+            self.switch_state();
+        }
         if self.use_a && !self.range_a.has_next() || !self.use_a && self.range_b.has_next() {
             self.range_a.renew(start, len);
         } else {
